@@ -1,12 +1,152 @@
 import GrinVerif.Drv.Common
-/-! Driver glue for the `bitmap` domain (line protocol handler). -/
+import GrinVerif.Model.Bitmap
+/-! Driver glue for the `bitmap` domain (property C15): replays the histories printed by
+`harness/src/bin/bitmap.rs` on the model of `BitmapAccumulator` with the real BLAKE2b and
+compares roots byte-exactly.
+
+Ops (see the harness for the generator):
+* `new <respect>`                         start of a history (fresh accumulator, no outputs)
+* `init [U] n`                            `BitmapAccumulator::init(U, n)` on a fresh accumulator; U becomes the unspent set
+* `block k [spent]`                       k outputs appended, `spent` (ascending) spent, then `apply_to_bitmap_accumulator`
+* `rewind n' [restored] [affected_pos]`   output set shrinks to n' leaves, `restored` un-spent, then `apply_to_bitmap_accumulator(affected_pos)`
+* `touch [affected_pos]`                  `apply_to_bitmap_accumulator(affected_pos)` with the output set unchanged
+* `reopen`                                accumulator replaced by `TxHashSet::bitmap_accumulator` (rebuild on open)
+* `scratch`                               property oracle: impl's incremental root vs the from-scratch root of the model's unspent set
+* `probe`                                 (histories outside the chain invariant) does incremental = scratch? `same`/`differ`
+* `rawinit [idx] size`, `rawapply [inval] [idx] size`   direct API calls with arbitrary (unsorted, out-of-range) arguments
+* `chunk [bits]`                          128-byte serialisation of a chunk (the hashed leaf element)
+* `cex [U0] [inval] [idx] [U1] size`      incremental vs scratch roots of the documented counter-example
+* `merged ver pmmr_root bitmap_root size hdr_output_root`   `TxHashSetRoots::validate` on the output root -/
 namespace GV.Drv.BitmapD
-open GV GV.Drv
+open GV GV.Drv GV.Pmmr GV.Bitmap
+
+/-- the real hash shapes: `(idx, chunk).hash()` over the 128 chunk bytes and `(idx, (l, r)).hash()` -/
+def realHF : HashFn Nat Bytes where
+  leaf := fun i ch => h256 (beBytes 8 i ++ chunkBytes ch)
+  node := fun i l r => h256 (beBytes 8 i ++ l ++ r)
 
 structure St where
-  dummy : Unit := ()
+  acc : Acc Bytes := Bitmap.new
+  /-- number of leaves of the output MMR -/
+  n : Nat := 0
+  /-- unspent leaf indices, ascending -/
+  U : List Nat := []
+  respect : Bool := true
 
-def handle (st : St) (_args : List String) (_impl : String) : St × Verdict :=
-  (st, .unknown)
+def showRoot : RootRes Bytes → String
+  | .zero => "zero"
+  | .ok h => toHex h
+  | .err => "panic"
+
+/-- `root nleaves card sum` as printed by the harness -/
+def showAcc (a : Acc Bytes) : String :=
+  let bm := match asBitmap a with
+    | some l => s!"{l.length} {l.foldl (· + ·) 0}"
+    | none => "panic"
+  s!"{showRoot (Bitmap.root realHF a)} {nLeaves a.hashes.length} {bm}"
+
+def showRes : Option (Acc Bytes) → String
+  | some a => showAcc a
+  | none => "err"
+
+/-- a \ b on ascending lists -/
+def diffSorted : List Nat → List Nat → List Nat
+  | [], _ => []
+  | a, [] => a
+  | x :: xs, y :: ys =>
+    if x < y then x :: diffSorted xs (y :: ys)
+    else if x = y then diffSorted xs ys
+    else diffSorted (x :: xs) ys
+termination_by a b => a.length + b.length
+
+/-- a ∪ b on ascending lists -/
+def unionSorted : List Nat → List Nat → List Nat
+  | [], b => b
+  | a, [] => a
+  | x :: xs, y :: ys =>
+    if x < y then x :: unionSorted xs (y :: ys)
+    else if x = y then x :: unionSorted xs ys
+    else y :: unionSorted (x :: xs) ys
+termination_by a b => a.length + b.length
+
+def outPmmr (st : St) : OutputPmmr := { size := insertionToPmmrIndex st.n, leafSet := st.U }
+
+/-- run `apply_to_bitmap_accumulator`, keep the old accumulator on error (as `?` does) -/
+def step (st : St) (affected : List Nat) (impl : String) : St × Verdict :=
+  let r := extApply realHF st.acc (outPmmr st) affected
+  ({ st with acc := r.getD st.acc }, cmpModel (showRes r) impl)
+
+def handle (st : St) (args : List String) (impl : String) : St × Verdict :=
+  match args with
+  | ["new", r] => ({ respect := r == "1" }, .ok)
+  | ["init", u, n] => match parseNatList u, nat? n with
+    | some u, some n =>
+      let r := Bitmap.init realHF Bitmap.new u n
+      ({ st with acc := r.getD Bitmap.new, n := n, U := u }, cmpModel (showRes r) impl)
+    | _, _ => (st, .unknown)
+  | ["block", k, spent] => match nat? k, parseNatList spent with
+    | some k, some spent =>
+      let created := (List.range k).map (· + st.n)
+      let st' := { st with n := st.n + k, U := diffSorted (st.U ++ created) spent }
+      let affected := (created ++ spent).map fun i => insertionToPmmrIndex i + 1
+      step st' affected impl
+    | _, _ => (st, .unknown)
+  | ["rewind", n', restored, affected] => match nat? n', parseNatList restored, parseNatList affected with
+    | some n', some restored, some affected =>
+      let st' := { st with n := n', U := unionSorted (st.U.filter (· < n')) restored }
+      step st' affected impl
+    | _, _, _ => (st, .unknown)
+  | ["touch", affected] => match parseNatList affected with
+    | some affected => step st affected impl
+    | none => (st, .unknown)
+  | ["reopen"] =>
+    let r := rebuildOnOpen realHF (outPmmr st)
+    ({ st with acc := r.getD st.acc }, cmpModel (showRes r) impl)
+  | ["scratch"] =>
+    -- the value the property fixes: the commitment computed from scratch over the unspent set
+    (st, cmpSpec (match fromScratch realHF st.U st.n with
+      | some a => showRoot (Bitmap.root realHF a)
+      | none => "err") impl)
+  | ["probe"] =>
+    let inc := showRoot (Bitmap.root realHF st.acc)
+    let scr := match fromScratch realHF st.U st.n with
+      | some a => showRoot (Bitmap.root realHF a)
+      | none => "err"
+    (st, cmpModel (if inc == scr then "same" else "differ") impl)
+  | ["rawinit", idx, size] => match parseNatList idx, nat? size with
+    | some idx, some size =>
+      let r := Bitmap.init realHF Bitmap.new idx size
+      ({ st with acc := r.getD Bitmap.new }, cmpModel (showRes r) impl)
+    | _, _ => (st, .unknown)
+  | ["rawapply", inval, idx, size] => match parseNatList inval, parseNatList idx, nat? size with
+    | some inval, some idx, some size =>
+      let r := Bitmap.apply realHF st.acc inval idx size
+      ({ st with acc := r.getD st.acc }, cmpModel (showRes r) impl)
+    | _, _, _ => (st, .unknown)
+  | ["chunk", bits] => match parseNatList bits with
+    | some bits =>
+      (st, cmpModel (toHex (chunkBytes (bits.foldl (fun ch b => chunkSet ch (b % 1024)) chunkNew))) impl)
+    | none => (st, .unknown)
+  | ["cex", u0, inval, idx, u1, size] =>
+    match parseNatList u0, parseNatList inval, parseNatList idx, parseNatList u1, nat? size with
+    | some u0, some inval, some idx, some u1, some size =>
+      let inc := match Bitmap.init realHF Bitmap.new u0 size with
+        | some a => match Bitmap.apply realHF a inval idx size with
+          | some b => showRoot (Bitmap.root realHF b)
+          | none => "err"
+        | none => "err"
+      let scr := match fromScratch realHF u1 size with
+        | some a => showRoot (Bitmap.root realHF a)
+        | none => "err"
+      (st, cmpModel s!"{inc} {scr}" impl)
+    | _, _, _, _, _ => (st, .unknown)
+  | ["merged", ver, pr, br, size, hdr] =>
+    match nat? ver, parseHex pr, parseHex br, nat? size, parseHex hdr with
+    | some ver, some pr, some br, some size, some hdr =>
+      let r : TxHashSetRoots Bytes := { pmmrRoot := pr, bitmapRoot := br, rproofRoot := [], kernelRoot := [] }
+      let h : HeaderRoots Bytes := { version := ver, outputMmrSize := size, outputRoot := hdr, rangeProofRoot := [], kernelRoot := [] }
+      (st, cmpSpec (if validateRoots realHF r h then "ok" else "invalid") impl)
+    | _, _, _, _, _ => (st, .unknown)
+  | _ => (st, .unknown)
 
 end GV.Drv.BitmapD
